@@ -93,6 +93,16 @@ def h_drawn_seed_used(opt: int, f_space: int, rep: int) -> bool:
     from harness.c08lib import drawn_seed_is_the_one_used
     return drawn_seed_is_the_one_used(opt, f_space)
 '''
+    text += '''
+
+def h_engine_reuse(opt: int, f_space: int, edit: int) -> bool:
+    """
+    pre: 0 <= opt <= 2 and 0 <= f_space <= 1 and 0 <= edit <= 5
+    post: _
+    """
+    from harness.c08lib import engine_reuse_is_fresh
+    return engine_reuse_is_fresh(opt, f_space, edit)
+'''
     mod = pysym.write_module("hgen_C08", text)
     pysym.run_auto(rec, mod, [
         {"fn": "h_seed_kept", "what": "a given seed is stored, carried by copy() and by the dictionary round trip (seed symbolic in [0, 2^32))", "sig": "c08-seed-kept", "structure": "seed", "timeout": 60, "force_crosshair": True},
@@ -101,4 +111,6 @@ def h_drawn_seed_used(opt: int, f_space: int, rep: int) -> bool:
         {"fn": "h_setup_is_pure", "what": "LibRDEngine.setup never writes to the caller's script: its dictionary is unchanged and a later set-up of the same script object (any engine kind) hands the native engine exactly what a freshly built identical script gives (6 unit-system choices incl. non-molecule quantity units x grid/graph x 3x3 engine kinds)",
          "sig": "c08-setup-pure", "structure": "script", "viol": "setting an engine up changes the caller's script, so the next simulation of the same script differs"},
         {"fn": "h_drawn_seed_used", "what": "when no seed is given, the seed handed to the native engine is the one kept in the engine's copy of the script (returned with the trajectory) and reported by the caller's script, for every engine kind on grid and graph (6 repetitions: the seed is random)",
-         "sig": "c08-drawn-seed", "structure": "seed", "viol": "without an explicit seed the script stored with the run does not hold the seed that was used: re-running it does not reproduce the trajectory"}])
+         "sig": "c08-drawn-seed", "structure": "seed", "viol": "without an explicit seed the script stored with the run does not hold the seed that was used: re-running it does not reproduce the trajectory"},
+        {"fn": "h_engine_reuse", "what": "an engine object that already simulated a script gives, after the script was edited in place (rate constant, per-environment constants, D, a state entry, a chemostat flag, the time step), exactly what a fresh engine object gives (3 engine kinds x grid/graph x 6 edits)",
+         "sig": "c08-engine-reuse", "structure": "engine object", "viol": "an engine object keeps something of an earlier set-up: the same script and seed give another simulation on a used engine than on a fresh one"}])
